@@ -7,6 +7,7 @@ def check(ck):
     ck.run(check_new_memo_tables, ck, "C14.M1", ('memento', 'code_hash', 'dependency_graph'))
     ck.run(H.check_descent_complete, ck, "C14.R1")
     ck.run(H.check_dotted_names, ck, "C14.R1b")
+    ck.run(H.check_names_resolved_where_defined, ck, "C14.R1c")
     ck.run(H.check_graph_derivation, ck, "C14.R2")
     ck.run(H.check_version_taint, ck, "C14.R3")
     ck.run(H.check_enforcement, ck, "C14.R4")
